@@ -460,6 +460,12 @@ func c13Encrypted(c *Ctx) {
 				continue
 			}
 		}
+		if len(aeadCalls) == 0 && isDec {
+			// closure form: decrypt*(…) = helper(encryptedKeyset, func(ct []byte) ([]byte, error) { return aead.Decrypt(ct, associatedData) })
+			if c13DecryptViaClosure(c, f, key, method, withCtx, adParam, ksParam) {
+				continue
+			}
+		}
 		if len(aeadCalls) != 1 {
 			r.Bad("C13.encrypted", key+"/one AEAD call", p.FuncPos(f), fmt.Sprintf("expected exactly one call of the key-encryption AEAD's %s, found %d (a second attempt with other parameters weakens the binding)", method, len(aeadCalls)))
 			continue
@@ -793,7 +799,7 @@ func c13EncryptViaClosure(c *Ctx, f *ssa.Function, key, method string, withCtx b
 	r.Check(okAD && call.Call.Method.Name() == method, "C13.encrypted", key+"/associated data", p.Pos(call.Pos()),
 		"the key-encryption AEAD is not called with the caller's associatedData parameter", method+"(…, associatedData parameter) inside the closure handed to "+h.Name())
 	// plaintext: the closure's own parameter, which the helper binds to proto.Marshal(keyset)
-	okData := len(args) == 2 && len(cl.Params) >= 1 && guard.Strip(args[0]) == ssa.Value(cl.Params[0])
+	okData := len(args) == 2 && len(cl.Params) >= 1 && guard.Strip(args[0]) == ssa.Value(cl.Params[0]) && closureReturnsCall(cl, call)
 	cidx, kidx := -1, -1
 	for i, a := range hcall.Call.Args {
 		if guard.Strip(a) == ssa.Value(mc) {
@@ -840,3 +846,177 @@ func c13EncryptViaClosure(c *Ctx, f *ssa.Function, key, method string, withCtx b
 }
 
 var c13EncryptHelpers = map[*ssa.Function]bool{}
+
+// closureReturnsCall: every return of cl hands back the two results of call, unchanged.
+func closureReturnsCall(cl *ssa.Function, call *ssa.Call) bool {
+	rets := guard.Returns(cl)
+	if len(rets) == 0 {
+		return false
+	}
+	for _, ret := range rets {
+		if len(ret.Results) != 2 {
+			return false
+		}
+		for i, res := range ret.Results {
+			if rc, ri := guard.CallOf(res); rc != call || ri != i {
+				return false
+			}
+		}
+	}
+	return true
+}
+
+// closureADIsParam: value v, inside closure cl made by mc, is the free variable
+// bound to the enclosing function's parameter adParam.
+func closureADIsParam(cl *ssa.Function, mc *ssa.MakeClosure, v ssa.Value, adParam ssa.Value) bool {
+	v = guard.Strip(v)
+	if u, isU := v.(*ssa.UnOp); isU {
+		v = u.X
+	}
+	for i, fv := range cl.FreeVars {
+		if v != ssa.Value(fv) || i >= len(mc.Bindings) {
+			continue
+		}
+		b := guard.Strip(mc.Bindings[i])
+		if b == adParam {
+			return true
+		}
+		// captured by reference: the binding is the cell holding the parameter
+		if al, isAl := b.(*ssa.Alloc); isAl {
+			ok, n := false, 0
+			for _, ref := range *al.Referrers() {
+				if st, isS := ref.(*ssa.Store); isS && st.Addr == ssa.Value(al) {
+					n++
+					ok = guard.Strip(st.Val) == adParam
+				}
+			}
+			return ok && n == 1
+		}
+	}
+	return false
+}
+
+// c13DecryptViaClosure decides the decrypt-side obligations when the AEAD call
+// sits in a closure handed to a shared helper of the package. It returns false
+// when the function does not have that shape (the ordinary rule then reports).
+func c13DecryptViaClosure(c *Ctx, f *ssa.Function, key, method string, withCtx bool, adParam, ksParam ssa.Value) bool {
+	p, r := c.P, c.R
+	if len(f.AnonFuncs) != 1 {
+		return false
+	}
+	cl := f.AnonFuncs[0]
+	var aead []*ssa.Call
+	allInstrs(cl, func(ins ssa.Instruction) {
+		if call, ok := ins.(*ssa.Call); ok && call.Call.IsInvoke() && strings.HasPrefix(call.Call.Method.Name(), method[:7]) {
+			aead = append(aead, call)
+		}
+	})
+	var hcall *ssa.Call
+	var mc *ssa.MakeClosure
+	allInstrs(f, func(ins ssa.Instruction) {
+		call, ok := ins.(*ssa.Call)
+		if !ok {
+			return
+		}
+		for _, a := range call.Call.Args {
+			if m, isMC := guard.Strip(a).(*ssa.MakeClosure); isMC && m.Fn == ssa.Value(cl) {
+				hcall, mc = call, m
+			}
+		}
+	})
+	if len(aead) != 1 || hcall == nil {
+		return false
+	}
+	h := hcall.Call.StaticCallee()
+	if h == nil || h.Blocks == nil || h.Pkg != f.Pkg {
+		return false
+	}
+	call := aead[0]
+	args := call.Call.Args
+	if withCtx {
+		args = args[1:]
+	}
+	okAD := len(args) == 2 && closureADIsParam(cl, mc, args[1], adParam)
+	r.Check(okAD && call.Call.Method.Name() == method, "C13.encrypted", key+"/associated data", p.Pos(call.Pos()),
+		"the key-encryption AEAD is not called with the caller's associatedData parameter", method+"(…, associatedData parameter) inside the closure handed to "+h.Name())
+	// ciphertext: the closure's own parameter, which the helper binds to the stored encrypted keyset
+	okData := len(args) == 2 && len(cl.Params) >= 1 && guard.Strip(args[0]) == ssa.Value(cl.Params[0]) && closureReturnsCall(cl, call)
+	cidx, kidx := -1, -1
+	for i, a := range hcall.Call.Args {
+		if guard.Strip(a) == ssa.Value(mc) {
+			cidx = i
+		}
+		if guard.Strip(a) == ksParam {
+			kidx = i
+		}
+	}
+	var inner []*ssa.Call
+	if cidx >= 0 && cidx < len(h.Params) {
+		allInstrs(h, func(ins ssa.Instruction) {
+			if c2, ok := ins.(*ssa.Call); ok && c2.Call.Value == ssa.Value(h.Params[cidx]) {
+				inner = append(inner, c2)
+			}
+		})
+		// the closure parameter must not go anywhere else
+		for _, ref := range *h.Params[cidx].Referrers() {
+			if c2, ok := ref.(*ssa.Call); !ok || c2.Call.Value != ssa.Value(h.Params[cidx]) {
+				inner = append(inner, nil)
+			}
+		}
+	}
+	if len(inner) != 1 || inner[0] == nil || kidx < 0 || kidx >= len(h.Params) || len(inner[0].Call.Args) != 1 {
+		r.Bad("C13.encrypted", key+"/one AEAD call", p.FuncPos(f), fmt.Sprintf("the helper %s does not call the decryption closure exactly once on the caller's encrypted keyset (%d uses)", h.Name(), len(inner)))
+		return true
+	}
+	ic := inner[0]
+	dc, _ := guard.CallOf(ic.Call.Args[0])
+	okSrc := dc != nil && strings.HasSuffix(guard.CalleeName(&dc.Call), "EncryptedKeyset).GetEncryptedKeyset") && guard.Strip(dc.Call.Args[0]) == ssa.Value(h.Params[kidx])
+	if !okSrc {
+		if b, fld, isF := guard.FieldOf(ic.Call.Args[0]); isF && fld == "EncryptedKeyset" && guard.Strip(b) == ssa.Value(h.Params[kidx]) {
+			okSrc = true
+		}
+	}
+	r.Check(okData && okSrc, "C13.encrypted", key+"/ciphertext", p.Pos(call.Pos()), "Decrypt is not applied to the stored encrypted keyset", "closure(encryptedKeyset.GetEncryptedKeyset()) in "+h.Name())
+	// release: in the helper, success only after the closure and Unmarshal of its plaintext succeeded;
+	// the function hands back the helper's results unchanged
+	okRel := true
+	rets := guard.SuccessReturns(h)
+	for _, ret := range rets {
+		okErr, okFlow := false, false
+		for _, fct := range guard.BlockFacts(ret.Block()) {
+			if ec, isNil, ok := guard.ErrNilFact(fct); ok && isNil && ec == ic {
+				okErr = true
+			}
+		}
+		for _, uc := range callsTo(h, "google.golang.org/protobuf/proto.Unmarshal") {
+			ucc := uc.Common()
+			src, si := guard.CallOf(ucc.Args[0])
+			if src == ic && si == 0 && guard.Strip(ucc.Args[1]) == guard.Strip(ret.Results[0]) {
+				for _, fct := range guard.BlockFacts(ret.Block()) {
+					if ec, isNil, ok := guard.ErrNilFact(fct); ok && isNil && ssa.Instruction(ec) == uc {
+						okFlow = true
+					}
+				}
+			}
+		}
+		if !okErr || !okFlow {
+			okRel = false
+		}
+	}
+	forwards := true
+	for _, ret := range guard.SuccessReturns(f) {
+		if len(ret.Results) != 2 {
+			forwards = false
+			continue
+		}
+		for i, res := range ret.Results {
+			if rc, ri := guard.CallOf(res); rc != hcall || ri != i {
+				forwards = false
+			}
+		}
+	}
+	r.Check(okRel && len(rets) > 0 && forwards, "C13.encrypted", key+"/release", p.FuncPos(f),
+		"a keyset can be returned without the AEAD's Decrypt having succeeded on the caller's associated data, or it is not the decrypted plaintext",
+		"in "+h.Name()+": dominated by err==nil of the closure and of proto.Unmarshal(plaintext, keyset); results handed back unchanged")
+	return true
+}
